@@ -200,7 +200,7 @@ static int linearizable(void) {
     int content[NKEYS];
     for (int i = 0; i < NKEYS; i++) content[i] = present0[i];
     for (int s = 0; s < n; s++) ok &= spec_step(content, seq[s]);
-    for (int i = 0; i < NKEYS; i++) ok &= (content[i] == final_[i]);
+    for (int i = 0; i < NKEYS; i++) if (uidx(UK[i]) == i) ok &= (content[i] == final_[i]);   /* first occurrence of each universe key */
     if (ok) found = 1;
   }
   return found;
